@@ -1,0 +1,37 @@
+//go:build verif
+
+// Contracts for the verification machinery in /verif (engine: govc). Comments only.
+package lpm
+
+// ---------------------------------------------------------------------------
+// LPM key codec (C18, C13): key = data[:ceil(prefixLen/8)] with the bits past prefixLen
+// cleared, followed by the prefix length as two big-endian bytes.
+
+//@ spec dataLenOf(prefixLen mathint) mathint = (prefixLen + 7) / 8
+//@ spec pow2u8(k mathint) mathint = k <= 0 ? 1 : (k == 1 ? 2 : (k == 2 ? 4 : (k == 3 ? 8 : (k == 4 ? 16 : (k == 5 ? 32 : (k == 6 ? 64 : (k == 7 ? 128 : 256)))))))
+//@ spec maskTo(b mathint, rem mathint) mathint = rem == 0 ? b : (b / pow2u8(8 - rem)) * pow2u8(8 - rem)
+
+//@ func EncodeLPMKey
+//@   property C18 C13
+//@   requires prefixLen <= 65528
+//@   requires dataLenOf(prefixLen) <= len(data)
+//@   ensures @len len(result) == dataLenOf(prefixLen) + 2
+//@   ensures @full forall i int :: 0 <= i && i < dataLenOf(prefixLen) - 1 ==> result[i] == old(data[i])
+//@   ensures @last dataLenOf(prefixLen) > 0 ==> result[dataLenOf(prefixLen) - 1] == maskTo(old(data[dataLenOf(prefixLen) - 1]), prefixLen % 8)
+//@   ensures @suffix result[len(result) - 2] == prefixLen / 256 && result[len(result) - 1] == prefixLen % 256
+//@   ensures @fresh fresh(result)
+//@   ensures @frame onlyFresh()
+
+//@ func DecodeLPMKey returns (data, prefixLen)
+//@   property C18 C13
+//@   pure
+//@   requires len(key) >= 2
+//@   requires key[len(key)-2] * 256 + key[len(key)-1] <= 65528 && dataLenOf(key[len(key)-2] * 256 + key[len(key)-1]) <= len(key) - 2
+//@   ensures prefixLen == key[len(key)-2] * 256 + key[len(key)-1]
+//@   ensures arr(data) == arr(key) && off(data) == off(key) && len(data) == len(key) - 2
+
+//@ func getBitAt
+//@   property C13
+//@   pure
+//@   requires index / 8 < len(data)
+//@   ensures result == (data[index / 8] / pow2u8(7 - index % 8)) % 2
